@@ -554,6 +554,23 @@ fn make_extended_auth<'a>(
     Ok(socks5_client::Authentication::Extended(values))
 }
 
+#[cfg(feature = "verif_hooks")]
+pub(crate) fn verif_make_auth(
+    auth: authentication::Source,
+) -> Result<socks5_client::Authentication, String> {
+    make_auth(auth)
+}
+
+#[cfg(feature = "verif_hooks")]
+pub(crate) fn verif_make_extended_auth<'a>(
+    auth: authentication::Source<'a>,
+    tls_domain: &'a str,
+    client_address: &IpAddr,
+    user_agent: Option<&'a str>,
+) -> Result<socks5_client::Authentication<'a>, String> {
+    make_extended_auth(auth, tls_domain, client_address, user_agent)
+}
+
 const fn socks_settings(settings: &Settings) -> &Socks5ForwarderSettings {
     match &settings.forward_protocol {
         ForwardProtocolSettings::Socks5(x) => x,
